@@ -16,7 +16,7 @@ def skey(i):
     """string key for index i >= 0: base-5 over a..e without padding (lexicographic order differs from numeric)"""
     s = ""
     while True:
-        s = "abcde"[i % 5] + s
+        s = "ab%de"[i % 5] + s   # (a key that contains a formatting verb must print as it is)
         i //= 5
         if i == 0:
             return s
